@@ -4,6 +4,8 @@ import (
 	"bytes"
 	"encoding/base64"
 	"fmt"
+	"golang.org/x/text/encoding"
+	"golang.org/x/text/encoding/japanese"
 	"os"
 	"os/exec"
 	"path/filepath"
@@ -33,9 +35,18 @@ type c19Meta struct {
 
 var c19Cells = []string{"", "a", "b c", "x,y", "q\"q", "é", "日本", "tab\tin", "colon:in", "007", "-1.5", "true", "null", "  pad  ", "long-long-long-long-value", "cr\r", "a\r\nb", "nl\n", "\r", "q\"\r"}
 
-func c19Content(format string, rows int, r *Rng, lb string) string {
+// cells whose encoded and decoded lengths differ: half-width katakana (1 byte in
+// Shift_JIS, 3 in UTF-8), full-width text (2 bytes in Shift_JIS and UTF-16, 3 in UTF-8)
+var c19WideCells = []string{"ｱｲｳｴｵｶｷｸｹｺ", "ｻｼｽｾｿﾀﾁﾂﾃﾄﾅﾆﾇﾈﾉ", "東京都千代田区", "大阪府大阪市北区梅田", "ｶﾅ", "日本語", "ﾊﾋﾌﾍﾎﾏﾐﾑﾒﾓﾔﾕﾖ", "神奈川県横浜市"}
+
+func c19Content(format string, rows int, r *Rng, lb string, wide bool) string {
 	var b strings.Builder
-	cell := func() string { return c19Cells[r.Intn(len(c19Cells))] }
+	cell := func() string {
+		if wide && r.Bool(0.85) {
+			return c19WideCells[r.Intn(len(c19WideCells))]
+		}
+		return c19Cells[r.Intn(len(c19Cells))]
+	}
 	plain := func() string {
 		return strings.NewReplacer(",", "_", "\"", "_", "\t", "_", ":", "_", " ", "_", "\r", "_", "\n", "_").Replace(cell())
 	}
@@ -110,6 +121,10 @@ func encodeAs(s string, enc string) []byte {
 			}
 		}
 		return b.Bytes()
+	case "SJIS":
+		if out, err := encoding.ReplaceUnsupported(japanese.ShiftJIS.NewEncoder()).Bytes([]byte(s)); err == nil {
+			return out
+		}
 	}
 	return []byte(s)
 }
@@ -132,8 +147,14 @@ func (c19) Gen(seed uint64, tier string) *Scenario {
 		rows = r.Range(290, 420) // around the loader's 300-record regrow threshold
 	}
 	lb := r.PickS("\n", "\n", "\r\n", "\r")
-	text := c19Content(m.Format, rows, r, lb)
-	m.Encoding = r.PickS("UTF8", "UTF8", "UTF8", "UTF8M", "UTF16LE", "UTF16BEM", "UTF16LEM", "UTF16BE", "SJIS")
+	m.Encoding = r.PickS("UTF8", "UTF8", "UTF8", "UTF8M", "UTF16LE", "UTF16BEM", "UTF16LEM", "UTF16BE", "SJIS", "SJIS")
+	// text whose size in the file and size after decoding differ a lot (the loaders
+	// estimate capacities from the two), more often in files beyond the threshold
+	wide := m.Encoding != "UTF8" && m.Encoding != "UTF8M" && r.Bool(0.4)
+	if wide && r.Bool(0.3) {
+		rows = r.Range(290, 720)
+	}
+	text := c19Content(m.Format, rows, r, lb, wide)
 	data := encodeAs(text, m.Encoding)
 	if r.Bool(0.35) && len(data) > 0 {
 		m.Trunc = r.Intn(len(data)) // torn input: cut mid-quote, mid-UTF-16 unit, mid-JSON token ...
